@@ -134,11 +134,14 @@ def wellformed(loc, allow_overlap=False, allow_adjacent=False):
     conds = [bl[0][0] >= 0, loc.start == bl[0][0], loc.end == MAX([b[1] for b in bl]), len(loc) == total_len(bl)]
     for s, e in bl:
         conds.append(s < e)
+    # with overlapping blocks present, which blocks are list-neighbours depends on the tie-break of the sort: the "no mergeable-adjacent neighbours"
+    # clause is only claimed for results whose blocks do not overlap
+    any_overlap = OR(*[bl[i][1] > bl[j][0] for i in range(len(bl)) for j in range(i + 1, len(bl))]) if allow_overlap and len(bl) > 1 else False
     for (s1, e1), (s2, e2) in zip(bl, bl[1:]):
         conds.append(s1 <= s2)
         if allow_overlap:
             if not allow_adjacent:
-                conds.append(e1 != s2)
+                conds.append(OR(any_overlap, e1 != s2))
         else:
             conds.append(e1 <= s2 if allow_adjacent else e1 < s2)
     if type(loc) is CompoundInterval:
